@@ -928,10 +928,18 @@ fn crash_history(seed: u64, sc: usize, k: Option<usize>, out: Box<dyn std::io::W
         last_bans: Vec::new(),
         crashed: false,
         dead: false,
+        last_state: serde_json::Value::Null,
     };
     // (odd seeds: the peer is half way up first and reaches A's tip right before the second registration, so that
     //  there are filters left to process then)
-    let first_tip = if seed % 2 == 0 { a_tip } else { sim.chain.ancestor_at(a_tip, (a_len as u64 / 2).max(2)).unwrap() };
+    // variant (seed mod 4 unless given): 0, 2: the peer is at A's tip from the start, the second registration starts
+    // low; 1: the peer is half way up first (matched blocks are pending at the second registration), which starts
+    // above everything filtered; 3: half way up first AND a low start -- pending records while the scripts batch
+    // itself lowers the filter position below them
+    let variant = arg_u64(kv, "variant", seed % 4);
+    let half = variant % 2 == 1;
+    let low = variant % 2 == 0 || variant == 3;
+    let first_tip = if !half { a_tip } else { sim.chain.ancestor_at(a_tip, (a_len as u64 / 2).max(2)).unwrap() };
     let mut env = Env::new(&sim, &[(first_tip, a_tip)]);
     env.peers[0].server.filters_batch = 3;
     env.peers[0].server.hashes_batch = 5;
@@ -939,7 +947,7 @@ fn crash_history(seed: u64, sc: usize, k: Option<usize>, out: Box<dyn std::io::W
     let list1 = vec![(0usize, false, 0u64), (3usize, true, 1u64)];
     // the second registration starts either low (the scripts batch itself rewinds the filter position) or above
     // everything filtered so far (only the pending matched blocks make set_scripts rewind)
-    let list2 = vec![(1usize, false, if seed % 2 == 0 { 2u64 } else { a_len as u64 - 1 })];
+    let list2 = vec![(1usize, false, if low { 2u64 } else { a_len as u64 - 1 })];
     let retry = arg_u64(kv, "retry", 1) == 1;
     // the scripted history
     let mut phase = 0;
@@ -952,7 +960,7 @@ fn crash_history(seed: u64, sc: usize, k: Option<usize>, out: Box<dyn std::io::W
             if sim.crashed { sim.crashed = false; env.after_crash(); if retry { continue; } }
             phase = 1;
         }
-        if phase == 1 && round == (if seed % 2 == 0 { 3 } else { 1 }) {
+        if phase == 1 && round == (if !half { 3 } else { 1 }) {
             // leave matched blocks pending (a filter batch accepted, nothing proved or downloaded yet): set_scripts
             // then has a record to discard and a filter position to rewind
             if env.grow(&sim, 0, u64::MAX / 2) {
@@ -1085,6 +1093,10 @@ pub fn run(kv: &HashMap<String, String>) -> i32 {
     let mode = arg_str(kv, "mode", "sync");
     let path = arg_str(kv, "out", "/dev/stdout");
     let mut out: Box<dyn std::io::Write> = Box::new(BufWriter::new(File::create(&path).expect("open out")));
+    if arg_u64(kv, "wlog", 0) == 1 {
+        // write-level trace beside the event trace
+        crate::verif::sim::wlog_enable(&format!("{}.w", path));
+    }
     let mut total = 0;
     let mut panics = Vec::new();
     for sc in 0..n {
@@ -1106,6 +1118,7 @@ pub fn run(kv: &HashMap<String, String>) -> i32 {
         panics.extend(p);
     }
     out.flush().ok();
+    crate::verif::sim::wlog_finish();
     eprintln!("filtersync mode={} scenarios={} lines={} panics={}", mode, n, total, panics.len());
     0
 }
